@@ -47,7 +47,7 @@ func runC15(tier string) int {
 		pieces := []string{
 			"script" + m[0] + " S {\n\tL1" + lm + ":\n\tif (flag(A)) {\n\t\tmsgbox(\"hi\")\n\t}\n\twhile (var(V) < 2) {\n\t\tapplymovement(1, moves(u d))\n\t\tL2:\n\t}\n\tswitch (var(W)) {\n\t\tcase 1:\n\t\t\tx\n\t\tdefault:\n\t\t\ty\n\t}\n}\n",
 			"text" + m[1] + " T {\n\t\"hello\"\n}\n",
-			"movement" + m[2] + " M {\n\tu\n}\n",
+			"movement" + m[2] + " M {\n\tu\n\td\n}\n",
 			"mart" + m[3] + " Mt {\n\tI1\n}\n",
 			"mapscripts" + m[4] + " Map {\n\tON_RESUME: S\n\tON_LOAD {\n\t\tif (flag(B)) {\n\t\t\tmsgbox(\"map\")\n\t\t}\n\t\tL3" + lm + ":\n\t}\n\tON_FRAME [\n\t\tVAR_A, 0: S\n\t\tVAR_A, 1 {\n\t\t\tmsgbox(\"tab\")\n\t\t\tif (flag(C)) {\n\t\t\t\tz\n\t\t\t}\n\t\t}\n\t]\n\tON_TRANSITION {\n\t\tapplymovement(2, moves(l r))\n\t}\n}\n",
 			"script S2 {\n\tmsgbox(\"s2a\")\n\tmsgbox(\"s2b\")\n}\n",
